@@ -383,7 +383,12 @@ def run_case(desc):
     lb = res.get('labels_before') or []
     nt = 0
     nt += check_run(res['clean'], 'clean', h, lb, items, stats)
-    if res.get('noop'):
+    if res.get('noop') and res['noop'].get('required'):
+        # the upgrade did not bring the database to the models (a matter of
+        # C01 / C03 / C04, e.g. RenameModel chains that reuse a name): the
+        # second run is then not a run with nothing to do
+        stats['noop_still_required'] = 1
+    elif res.get('noop'):
         check_run(res['noop'], 'noop', h, res['clean']['recorded_labels'],
                   items, stats)
         if res.get('noop_changed'):
